@@ -99,3 +99,113 @@ Lemma sized_label s l : sized s (set_sym s l (loc s)).
 Proof. apply SzSilent; reflexivity. Qed.
 
 End G.
+
+(** ---- instances of [sized] for the statement kinds whose size agreement is proved for all inputs ---- *)
+From Gosk Require Import Spec.Data Generated.Tables Lemmas.DataLemmas Lemmas.C05Lemmas Lemmas.C03Lemmas.
+
+Section Instances.
+Variable E : encoder.
+Variables (m : mode) (st : symtab) (dol : Z).
+
+(* DB / DW / DD with any operand list *)
+Lemma sized_data w f s ops ds :
+  data_stmt_spec E w f s ops ds -> - 2 ^ 31 <= loc s + zlen (spec_data w ds) < 2 ^ 31 ->
+  sized E m st dol s (do_data s w f ops).
+Proof.
+  intros [vals [Ho [Hg [_ [Hl _]]]]] Hr.
+  apply (SzPush E m st dol _ _ (OData w vals) (spec_data w ds)).
+  - exact Ho.
+  - unfold emitted. rewrite Hg. reflexivity.
+  - rewrite Hl. apply int32_id. exact Hr.
+Qed.
+
+(* RESB n *)
+Lemma sized_resb s n : 0 <= n < 2 ^ 31 -> - 2 ^ 31 <= loc s + n < 2 ^ 31 -> sized E m st dol s (do_resb s [ENum n]).
+Proof.
+  intros Hn Hr. destruct (resb_stmt E s n Hn) as [Ho [Hg [Hl _]]].
+  apply (SzPush E m st dol _ _ (OResb n) (repeat 0 (Z.to_nat n))).
+  - exact Ho.
+  - unfold emitted. rewrite Hg. reflexivity.
+  - rewrite Hl. unfold zlen. rewrite repeat_length, Z2Nat.id by lia. apply int32_id. exact Hr.
+Qed.
+
+(* INT n *)
+Lemma sized_int s v : 0 <= v <= 255 -> loc s + 2 < 2 ^ 31 -> - 2 ^ 31 <= loc s -> sized E m st dol s (do_int s [ENum v]).
+Proof.
+  intros Hv Hh Hl. destruct (size_int E m st dol (loc s - dol) s v Hv Hh Hl) as [bs [Hg [Ho Hloc]]].
+  apply (SzPush E m st dol _ _ (OInt (Some v)) bs).
+  - exact Ho.
+  - unfold emitted. rewrite Hg. reflexivity.
+  - exact Hloc.
+Qed.
+
+(* JMP / Jcc / CALL to a label, 16-bit mode, on the ranges where pass 1's fixed estimate is the emitted length:
+   the label's FINAL value (what codegen will look up) lies within the short range of the jump's own address *)
+Lemma sized_branch16 s name op r lbl d :
+  m = M16 -> bmode s = M16 ->
+  eval_top (env_of s) op = Ev (EImm (FId lbl)) r ->
+  lookup lbl st = Some d ->
+  (name = "JMP"%string /\ -126 <= d - loc s <= 129
+   \/ name = "CALL"%string /\ -32768 <= d - loc s - 3 <= 32767
+   \/ (exists opc, name <> "JMP"%string /\ name <> "CALL"%string /\ lookup name Generated.Tables.jcc_table = Some opc /\ -126 <= d - loc s <= 129)) ->
+  - 2 ^ 31 <= loc s -> loc s + 3 < 2 ^ 31 ->
+  sized E m st dol s (do_jcc s name [op]).
+Proof.
+  intros Hm Hb He Hl Hcase Hlo Hhi. unfold do_jcc. rewrite He. rewrite Hb.
+  set (s1 := if sym_has lbl (sym s) then s else set_sym s lbl 0).
+  assert (Hs1 : ocodes s1 = ocodes s /\ loc s1 = loc s) by (unfold s1; destruct (sym_has lbl (sym s)); split; reflexivity).
+  destruct Hs1 as [Ho1 Hl1].
+  assert (Hrel : d - (dol + (loc s - dol)) = d - loc s) by lia.
+  destruct Hcase as [[Hn Hr] | [[Hn Hr] | [opc [Hn1 [Hn2 [Hopc Hr]]]]]].
+  - subst name. apply (SzPush E m st dol _ _ (OJcc "JMP" (JLabel lbl)) (gen_jmp M16 (d - loc s))).
+    + cbn [push_ocode add_loc set_loc ocodes]. rewrite Ho1. reflexivity.
+    + unfold emitted. cbn [gen_ocode]. rewrite Hl, Hrel, Hm. reflexivity.
+    + cbn [push_ocode add_loc set_loc loc]. rewrite Hl1, (size_jmp_short16 _ Hr). cbn [estimate_jump String.eqb Ascii.eqb Bool.eqb]. apply int32_id. lia.
+  - subst name. apply (SzPush E m st dol _ _ (OJcc "CALL" (JLabel lbl)) (gen_call M16 (d - loc s))).
+    + cbn [push_ocode add_loc set_loc ocodes]. rewrite Ho1. reflexivity.
+    + unfold emitted. cbn [gen_ocode]. rewrite Hl, Hrel, Hm. reflexivity.
+    + cbn [push_ocode add_loc set_loc loc]. rewrite Hl1, (size_call16 _ Hr). cbn [estimate_jump String.eqb Ascii.eqb Bool.eqb]. apply int32_id. lia.
+  - apply (SzPush E m st dol _ _ (OJcc name (JLabel lbl)) (gen_jcc M16 opc (d - loc s))).
+    + cbn [push_ocode add_loc set_loc ocodes]. rewrite Ho1. reflexivity.
+    + unfold emitted. cbn [gen_ocode]. rewrite Hl, Hrel, Hm.
+      apply String.eqb_neq in Hn1. apply String.eqb_neq in Hn2. rewrite Hn1, Hn2, Hopc. reflexivity.
+    + cbn [push_ocode add_loc set_loc loc]. rewrite Hl1, (size_jcc_short16 opc _ name Hr Hn2).
+      assert (He2 : estimate_jump name M16 = 2) by (unfold estimate_jump; apply String.eqb_neq in Hn2; rewrite Hn2; reflexivity).
+      rewrite He2. apply int32_id. lia.
+Qed.
+
+(* 32-bit mode: EVERY JMP / Jcc / CALL to a label is sized exactly, wherever the label ends up *)
+Lemma sized_branch32 s name op r lbl d :
+  m = M32 -> bmode s = M32 ->
+  eval_top (env_of s) op = Ev (EImm (FId lbl)) r ->
+  lookup lbl st = Some d ->
+  (name = "JMP"%string \/ name = "CALL"%string
+   \/ (exists opc, name <> "JMP"%string /\ name <> "CALL"%string /\ lookup name Generated.Tables.jcc_table = Some opc)) ->
+  - 2 ^ 31 <= loc s -> loc s + 6 < 2 ^ 31 ->
+  sized E m st dol s (do_jcc s name [op]).
+Proof.
+  intros Hm Hb He Hl Hcase Hlo Hhi. unfold do_jcc. rewrite He. rewrite Hb.
+  set (s1 := if sym_has lbl (sym s) then s else set_sym s lbl 0).
+  assert (Hs1 : ocodes s1 = ocodes s /\ loc s1 = loc s) by (unfold s1; destruct (sym_has lbl (sym s)); split; reflexivity).
+  destruct Hs1 as [Ho1 Hl1].
+  assert (Hrel : d - (dol + (loc s - dol)) = d - loc s) by lia.
+  destruct Hcase as [Hn | [Hn | [opc [Hn1 [Hn2 Hopc]]]]].
+  - subst name. apply (SzPush E m st dol _ _ (OJcc "JMP" (JLabel lbl)) (gen_jmp M32 (d - loc s))).
+    + cbn [push_ocode add_loc set_loc ocodes]. rewrite Ho1. reflexivity.
+    + unfold emitted. cbn [gen_ocode]. rewrite Hl, Hrel, Hm. reflexivity.
+    + cbn [push_ocode add_loc set_loc loc]. rewrite Hl1, size_jmp32. cbn [estimate_jump String.eqb Ascii.eqb Bool.eqb orb]. apply int32_id. lia.
+  - subst name. apply (SzPush E m st dol _ _ (OJcc "CALL" (JLabel lbl)) (gen_call M32 (d - loc s))).
+    + cbn [push_ocode add_loc set_loc ocodes]. rewrite Ho1. reflexivity.
+    + unfold emitted. cbn [gen_ocode]. rewrite Hl, Hrel, Hm. reflexivity.
+    + cbn [push_ocode add_loc set_loc loc]. rewrite Hl1, size_call32. cbn [estimate_jump String.eqb Ascii.eqb Bool.eqb orb]. apply int32_id. lia.
+  - apply (SzPush E m st dol _ _ (OJcc name (JLabel lbl)) (gen_jcc M32 opc (d - loc s))).
+    + cbn [push_ocode add_loc set_loc ocodes]. rewrite Ho1. reflexivity.
+    + unfold emitted. cbn [gen_ocode]. rewrite Hl, Hrel, Hm.
+      apply String.eqb_neq in Hn1. apply String.eqb_neq in Hn2. rewrite Hn1, Hn2, Hopc. reflexivity.
+    + cbn [push_ocode add_loc set_loc loc]. rewrite Hl1, (size_jcc32 opc _ name Hn1 Hn2).
+      assert (He2 : estimate_jump name M32 = 6).
+      { unfold estimate_jump. apply String.eqb_neq in Hn1. apply String.eqb_neq in Hn2. rewrite Hn1, Hn2. reflexivity. }
+      rewrite He2. apply int32_id. lia.
+Qed.
+
+End Instances.
